@@ -84,6 +84,11 @@ Section FrameInv.
     | |- R ?x (set_fold_counter ?y _) => apply (Rtrans x y); [rch | apply (fi_set_fold_counter R HF)]
     | |- R ?x (set_ext ?y _) => apply (Rtrans x y); [rch | apply (fi_set_ext R HF)]
     | |- R ?x (with_streams ?y _) => apply (Rtrans x y); [rch | apply (fi_set_ext R HF)]
+    | |- R ?x (with_canon_maps ?y _) => apply (Rtrans x y); [rch | apply (fi_set_ext R HF)]
+    | |- R ?x (all_fold_start ?y) => unfold all_fold_start; rch
+    | |- R ?x (all_fold_end ?y) => unfold all_fold_end; rch
+    | |- R ?x (all_next_before ?y) => unfold all_next_before; rch
+    | |- R ?x (all_next_after ?y) => unfold all_next_after; rch
     | |- R ?x (make_incomplete ?y) => apply (Rtrans x y); [rch | apply fi_make_incomplete]
     | |- R ?x (flush_complete ?y) => apply (Rtrans x y); [rch | apply fi_flush_complete]
     | |- R ?x (call_end ?y _) => apply (Rtrans x y); [rch | apply fi_call_end]
@@ -659,6 +664,11 @@ Section ExecInv.
     | |- R ?x (set_fold_counter ?y _) => apply (Rtrans x y); [rch | apply (fi_set_fold_counter R HF)]
     | |- R ?x (set_ext ?y _) => apply (Rtrans x y); [rch | apply (fi_set_ext R HF)]
     | |- R ?x (with_streams ?y _) => apply (Rtrans x y); [rch | apply (fi_set_ext R HF)]
+    | |- R ?x (with_canon_maps ?y _) => apply (Rtrans x y); [rch | apply (fi_set_ext R HF)]
+    | |- R ?x (all_fold_start ?y) => unfold all_fold_start; rch
+    | |- R ?x (all_fold_end ?y) => unfold all_fold_end; rch
+    | |- R ?x (all_next_before ?y) => unfold all_next_before; rch
+    | |- R ?x (all_next_after ?y) => unfold all_next_after; rch
     | |- R ?x (make_incomplete ?y) => apply (Rtrans x y); [rch | apply (fi_make_incomplete R HF)]
     | |- R ?x (flush_complete ?y) => apply (Rtrans x y); [rch | apply (fi_flush_complete R HF)]
     | |- R ?x (call_end ?y _) => apply (Rtrans x y); [rch | apply (fi_call_end R HF)]
@@ -781,50 +791,37 @@ Section ExecInv.
     | |- context [match ?d with _ => _ end] =>
         lazymatch d with
         | context [match _ with _ => _ end] => fail
-        | _ => destruct d eqn:?
+        | _ => lazymatch type of d with
+               | instr => fail        (* never split the sub-instructions *)
+               | _ => destruct d eqn:?
+               end
         end
     end.
+
+  (* one arm of [exec]: destruct every scrutinee (posing the induction hypothesis for recursive runs),
+     then close each leaf; independent of the order and the number of the instruction arms *)
+  Ltac arm IH Hh :=
+    try (apply (fi_with_handler R HF); intros ? _);
+    cbn [res_sat lift];
+    repeat (dm IH; cbn [res_sat lift]);
+    repeat match goal with H : (_, _) = (_, _) |- _ => inversion H; clear H; subst end;
+    first
+      [ exact I
+      | discriminate
+      | rch
+      | apply ei_exec_call
+      | apply (fi_exec_fail R HF)
+      | apply (fi_exec_ap R HF)
+      | apply Hh
+      | match goal with H : hook _ _ _ = Some ?r |- res_sat _ _ ?r => apply (Hhook _ IH _ _ _ H) end
+      | eapply res_sat_trans; [| apply IH]; rch ].
 
   Theorem exec_inv : forall fuel i x, res_sat R x (exec hook fuel i x).
   Proof.
     induction fuel as [| n IH]; intros i x; [exact I |].
     assert (Hh : forall i0 x0, res_sat R x0 (match hook (exec hook n) i0 x0 with Some r' => r' | None => XUnsupported "stream" end)).
     { intros i0 x0. destruct (hook (exec hook n) i0 x0) eqn:E; [| exact I]. apply (Hhook _ IH _ _ _ E). }
-    destruct i; cbn [exec]; try apply (fi_wrap_errors R HF); try exact I.
-    - (* call *) apply ei_exec_call.
-    - (* ap *) destruct r; [apply (fi_exec_ap R HF) | apply Hh].
-    - (* canon *) apply Hh.
-    - (* seq *)
-      repeat dm IH; cbn [res_sat]; auto; try rch.
-      eapply res_sat_trans; [| apply IH]. rch.
-    - (* par *)
-      apply (fi_with_handler R HF). intros h1 _.
-      repeat dm IH; cbn [res_sat]; auto;
-        repeat match goal with H : (_, _) = (_, _) |- _ => inversion H; clear H; subst end; try discriminate; try rch.
-    - (* xor *)
-      repeat dm IH; cbn [res_sat]; auto; try rch.
-    - (* match *)
-      repeat dm IH; cbn [res_sat]; auto; try rch; eapply res_sat_trans; try apply IH; rch.
-    - (* mismatch *)
-      repeat dm IH; cbn [res_sat]; auto; try rch; eapply res_sat_trans; try apply IH; rch.
-    - (* fail *) apply (fi_exec_fail R HF).
-    - (* fold scalar *)
-      repeat dm IH; cbn [res_sat]; auto; try rch.
-    - (* fold stream *) apply Hh.
-    - (* never *) cbn [res_sat]. rch.
-    - (* new *)
-      destruct a; try apply Hh; try exact I.
-      + repeat dm IH; cbn [res_sat lift]; auto; try rch.
-      + repeat dm IH; cbn [res_sat lift]; auto; try rch.
-    - (* next *)
-      destruct (iter_get (x_iterables x) (v_name iter)) as [fs|]; [| cbn [res_sat]; rch].
-      destruct (fs_type fs); [| apply Hh].
-      destruct (it_next (fs_iterable fs)) as [moved it'].
-      destruct (negb moved).
-      + destruct (fs_last fs); [| cbn [res_sat]; rch].
-        eapply res_sat_trans; [| apply IH]. rch.
-      + repeat dm IH; cbn [res_sat]; auto; try rch.
-    - (* null *) cbn [res_sat]. rch.
+    destruct i; cbn [exec]; try apply (fi_wrap_errors R HF); arm IH Hh.
   Qed.
 
 End ExecInv.
